@@ -1,7 +1,7 @@
+import Typegen.Basic
 /-! Probe: `SerdeParser::parse_field_serde_attrs` on token strings — substring search lemmas and
     correctness on a fragment of serde's field attribute grammar. -/
 namespace A
-abbrev Str := List Char
 
 def startsWith : Str → Str → Bool
   | _, [] => true
